@@ -1,12 +1,16 @@
 package scen
 
 import (
+	stdcrypto "crypto"
+	"crypto/ecdsa"
 	"crypto/sha256"
+	"encoding/base64"
 	"fmt"
 	"sync"
 
 	"github.com/ipfs/go-cid"
 	"github.com/libp2p/go-libp2p/core/crypto"
+	cryptopb "github.com/libp2p/go-libp2p/core/crypto/pb"
 	"github.com/libp2p/go-libp2p/core/peer"
 	"github.com/multiformats/go-multihash"
 )
@@ -76,4 +80,62 @@ func must[T any](v T, err error) T {
 		panic(fmt.Sprintf("harness setup: %v", err))
 	}
 	return v
+}
+
+// KeyedIdentity returns an identity of the given key type ("ed25519", "rsa",
+// "ecdsa", "secp256k1") and ordinal 1..3; non-Ed25519 keys come from the
+// committed key ring.
+func KeyedIdentity(typ string, n int, name string) *Ident {
+	if typ == "ed25519" {
+		id := Identity(fmt.Sprintf("%s-ed%d", name, n))
+		return &Ident{Name: name, Priv: id.Priv, ID: id.ID}
+	}
+	identMu.Lock()
+	defer identMu.Unlock()
+	key := fmt.Sprintf("%s%d", typ, n)
+	if id, ok := idents["ring:"+key]; ok {
+		return &Ident{Name: name, Priv: id.Priv, ID: id.ID}
+	}
+	raw, err := base64.StdEncoding.DecodeString(keyRing[key])
+	if err != nil || len(raw) == 0 {
+		panic("key ring: no key " + key)
+	}
+	priv, err := crypto.UnmarshalPrivateKey(raw)
+	if err != nil {
+		panic(err)
+	}
+	priv = wrapDeterministic(priv)
+	pid, err := peer.IDFromPrivateKey(priv)
+	if err != nil {
+		panic(err)
+	}
+	idents["ring:"+key] = &Ident{Name: key, Priv: priv, ID: pid}
+	return &Ident{Name: name, Priv: priv, ID: pid}
+}
+
+var KeyTypes = []string{"ed25519", "rsa", "ecdsa", "secp256k1"}
+
+func b64(b []byte) string { return base64.RawStdEncoding.EncodeToString(b) }
+
+// detECDSA signs deterministically (RFC 6979) so that one seed is one
+// execution; libp2p's ECDSA keys draw the nonce from crypto/rand.
+type detECDSA struct {
+	crypto.PrivKey
+	std *ecdsa.PrivateKey
+}
+
+func (k detECDSA) Sign(data []byte) ([]byte, error) {
+	h := sha256.Sum256(data)
+	return k.std.Sign(nil, h[:], stdcrypto.SHA256)
+}
+
+func wrapDeterministic(p crypto.PrivKey) crypto.PrivKey {
+	if p.Type() != cryptopb.KeyType_ECDSA {
+		return p
+	}
+	std, err := crypto.PrivKeyToStdKey(p)
+	if err != nil {
+		panic(err)
+	}
+	return detECDSA{PrivKey: p, std: std.(*ecdsa.PrivateKey)}
 }
